@@ -13,7 +13,7 @@ from ..report import Report
 from ..table import expand, fmt_val
 from .common import FINALIZE, HANDLE_FAILURE, REASON_EVENT, RUNNERS, attr, check_enums, ctor_args, emit_info, enum_name, is_emit, path_where
 from .failure_table import Outcome, failure_table, true_reasons
-from .runner_flow import RunnerClient, run_runners, short_witness
+from .runner_flow import flag1, RunnerClient, run_runners, short_witness
 
 TIME_INDEPENDENT = {"MAX_ATTEMPTS_PER_CLASS", "NON_RETRYABLE_CLASS", "MAX_UNKNOWN_ATTEMPTS", "MAX_ATTEMPTS_GLOBAL", "NO_STRATEGY"}
 
@@ -263,7 +263,7 @@ class SuccessClient(RunnerClient):
         st, flags = cs
         if st != "succ" or ev.kind != "call":
             if ev.kind == "iter" and st == "succ":
-                return (st, flags | {"loop-continues-after-success"})
+                return (st, flag1(flags, "loop-continues-after-success"))
             return cs
         what = None
         if self.is_operation(ev):
@@ -277,7 +277,7 @@ class SuccessClient(RunnerClient):
         elif self.callee_is(ev, "_RetryState._handle_failure"):
             what = "failure handling entered"
         if what:
-            return (st, flags | {f"{what} after a successful attempt"})
+            return (st, flag1(flags, f"{what} after a successful attempt"))
         return cs
 
     on_event_exc = lambda self, ev, cs, kind: self.on_event(ev, cs)  # noqa: E731
